@@ -215,6 +215,7 @@ BIT_STRING_print(const asn_TYPE_descriptor_t *td, const void *sptr, int ilevel,
 static const BIT_STRING_t *
 BIT_STRING__compactify(const BIT_STRING_t *st, BIT_STRING_t *tmp) {
     const uint8_t *b;
+    uint8_t v;
     union {
         const uint8_t *c_buf;
         uint8_t *nc_buf;
@@ -224,13 +225,15 @@ BIT_STRING__compactify(const BIT_STRING_t *st, BIT_STRING_t *tmp) {
         assert(st->bits_unused == 0);
         return st;
     } else {
-        for(b = &st->buf[st->size - 1]; b > st->buf && *b == 0; b--) {
-            ;
+        /* The unused bits of the last octet are not part of the value */
+        b = &st->buf[st->size - 1];
+        v = *b & (0xff << (st->bits_unused & 0x07));
+        while(b > st->buf && v == 0) {
+            v = *--b;
         }
-        /* b points to the last byte which may contain data */
-        if(*b) {
+        /* b points to the last byte which may contain data (v) */
+        if(v) {
             int unused = 7;
-            uint8_t v = *b;
             v &= -(int8_t)v;
             if(v & 0x0F) unused -= 4;
             if(v & 0x33) unused -= 2;
